@@ -1,30 +1,94 @@
 """Which Verus units and Kani harness groups decide which property (harness lists: kani/table.py)."""
 
+
 def U(unit, obligations, tier="quick", timeout=600):
     return dict(unit=unit, obligations=obligations, tier=tier, timeout=timeout)
+
+
+FLOAT_IDEAL = "idealised-real float semantics (machine arithmetic treated as mathematical) where stated per unit"
+WF_GAME = "wf_game (infoset indices in range, weight vectors as long as child lists) as established by Game::from_root: assumed, C11 is not applicable"
 
 PROPS = {
     "C01": dict(
         level="proof",
         technique="Verus contracts (requires/ensures/loop invariants) on regret.rs functions extracted from /repo each run; idealised-real floats",
-        level_text="Deductive proof, for trees of any size, that expected() returns the expectation of the tree under the profile and chance distribution. Partial: see level_note.",
-        level_note="Assumes wf_game from from_root, idealised-real arithmetic, termination unproved; optimal_deviations' bottom-up order argument not proved.",
+        level_text="Deductive proof (Verus, unbounded trees) on the real text of regret::expected and regret::next_infoset_search: "
+                   "the reported utility equals the expectation of the tree under the profile and chance distribution, and the "
+                   "continuation value used by the best-response pass equals its recursive definition. SplitsBy::next partition "
+                   "contract covers how get_info cuts the dense vector. Partial: see level_note.",
+        level_note="Assumes wf_game from from_root, idealised-real arithmetic, termination unproved; the global order argument of "
+                   "optimal_deviations (every infoset resolved after its successors) is NOT proved.",
         verus=[
             U("c01_expected", ["C01.V.expected.value"]),
+            U("c01_next_infoset_search", ["C01.V.next_infoset_search.value", "C01.V.next_infoset_search.queue_empty"]),
+            U("split_by", ["V.SplitsBy.next.partition"]),
         ],
-        trusted_base=["idealised-real float semantics (rv axioms)", "wf_game established by from_root (assumed)"],
+        trusted_base=[FLOAT_IDEAL, WF_GAME],
         not_decided=["bottom-up resolution loop of optimal_deviations (global order argument)"],
     ),
-    "C18_disabled": dict(
-        level="model_checking",
-        technique="x", level_text="x", level_note="x",
-        verus=[],
+    "C09": dict(
+        level="proof",
+        technique="Verus loop invariants on the control skeleton of the four solver loops (statement-table slices of the real functions, numeric body abstracted by uninterpreted state transformers)",
+        level_text="Deductive proof for every budget N and every threshold (unbounded) that each of the four iteration loops "
+                   "(solve_generic_single, solve_generic_multi scope body, solve_external_single, solve_external_multi scope body) "
+                   "returns the state after k iterations where k is the first iteration whose max(bound one, bound two) < r, or N; "
+                   "never exceeds the budget; kept statements (loop header, threshold test, break, result) are the real text.",
+        level_note="Iteration body abstracted (R6) to an arbitrary deterministic state transformer: holds for every body. "
+                   "Floats uninterpreted (same `<`/max in spec and code). NaN/<=0 thresholds never stopping relies on the IEEE "
+                   "facts `x < NaN` is false and bounds >= 0 (C02 harnesses).",
+        verus=[
+            U("c09_generic_single", ["C09.V.first_below"]),
+            U("c09_generic_multi", ["C09.V.first_below"]),
+            U("c09_external_single", ["C09.V.first_below"]),
+            U("c09_external_multi", ["C09.V.first_below"]),
+        ],
+        trusted_base=["R6 slicing side conditions (checked syntactically each run)"],
+        not_decided=["that the abstracted body is the same state transformer with and without a threshold is by the syntactic check that max_reg does not occur in it"],
+    ),
+    "C10": dict(
+        level="proof",
+        technique="Verus contracts on Multinomial::{new,sample} and SampledChance::{new,sample,reset} extracted from /repo each run",
+        level_text="Deductive proof (any number of outcomes): the categorical sampler returns k exactly when the variate lies in "
+                   "the k-th cumulative interval (idealised reals); the chance-infoset cache draws once per pass from exactly "
+                   "the declared weights and reset() re-arms it.",
+        level_note="rand / rand_distr are assumed contracts (WeightedAliasIndex statistical correctness trusted). Which player is "
+                   "sampled inside recurse_regret (RefCell/Mutex-generic recursion) is not decided.",
+        verus=[
+            U("c10_multinomial", ["C10.V.multinomial.inverse_cdf", "C10.V.multinomial.new_drops_last"]),
+            U("c10_sampled_chance", ["C10.V.sampled_chance.cache_hit", "C10.V.sampled_chance.cache_fill", "C10.V.sampled_chance.reset"]),
+        ],
+        trusted_base=[FLOAT_IDEAL, "rand::Rng::gen, rand_distr::WeightedAliasIndex (assumed contracts)"],
+        not_decided=["recurse_regret's choice of enumerated vs sampled player", "statistical correctness of the alias sampler"],
+    ),
+    "C13": dict(
+        level="proof",
+        technique="Verus contracts + representation invariant on NamedStrategyIter::{new,next,size_hint} extracted from /repo each run",
+        level_text="Deductive proof (any number of infosets): ExactSizeIterator contract of the infoset iterator (size_hint == "
+                   "number of items still yielded, decreasing by exactly one per item), k-th item is infoset k with the k-th "
+                   "block of the dense vector, then the single-action infosets in order.",
+        level_note="Representation invariant assumed at method entry (constructor + preservation proved). Action iterator "
+                   "(find/filter/count chains) handled by bounded Kani harnesses.",
+        verus=[U("c13_named_iter", ["C13.V.NamedStrategyIter.exact_size", "C13.V.NamedStrategyIter.kth_block"])],
+        trusted_base=["representation-invariant induction (constructor + preservation + field privacy)"],
+        not_decided=["round trip through the hashing importer"],
+    ),
+    "C18": dict(
+        level="proof",
+        technique="Verus contract on the per-infoset body of truncate (extracted each run) + Kani harnesses on the real truncate (bounded, bit-precise)",
+        level_text="Verus (any infoset size, uninterpreted floats): every entry above the threshold is divided by one common "
+                   "divisor, every other entry becomes exactly 0, or the block is untouched. Kani (bounded {2,2}/{2}, all f64 "
+                   "thresholds, bit-precise): the result is always a valid distribution per block and entries <= h are removed "
+                   "in every block that has a survivor.",
+        level_note="The Filter/sum statement computing the divisor is abstracted in Verus (value arbitrary); that it is the sum "
+                   "of survivors is only checked at the bounded level. Idempotence / sum-to-one up to rounding not decided.",
+        verus=[U("c18_truncate_block", ["C18.V.truncate.rescale"]), U("split_by", ["V.SplitsByMut.next.partition"])],
         kani_functions=["src/lib.rs :: impl Strategies / fn truncate"],
+        trusted_base=["uninterpreted float semantics in the Verus unit"],
         not_decided=["idempotence and sum-to-one up to rounding at the bit level"],
     ),
 }
 
-KANI_PROPS = []
+KANI_PROPS = ["C18"]
 
 NOT_APPLICABLE = {
     "C02": "check not built yet (planned: Kani contracts on cum_regret / advance / RegretBound)",
@@ -34,15 +98,11 @@ NOT_APPLICABLE = {
     "C06": "check not built yet",
     "C07": "check not built yet",
     "C08": "check not built yet",
-    "C09": "check not built yet",
-    "C10": "check not built yet",
     "C11": "from_root recursion through IndexMap/HashMap/HashSet entry APIs is outside both tools (Kani times out on a 5-node tree, Verus cannot specify the crates in single-file mode)",
     "C12": "relational property over two constructions and two whole solves; needs C11 plus whole-solver functional correctness",
-    "C13": "check not built yet",
     "C14": "check not built yet",
     "C15": "process-level output of the binary; logic inline in main() behind clap/serde/gambit-parser",
     "C16": "option plumbing inline in main(); process-level behaviour",
     "C17": "exit status / stderr of a process; not a property of one call",
-    "C18": "check not built yet",
     "C19": "check not built yet",
 }
